@@ -1,14 +1,16 @@
 package main
 
-// Facts for the `taskfn` slice (C08/C10/C11/C12): finite tables read off rigid syntactic
-// shapes of the job-controller's pure helpers.  Called from main() through taskfnFacts(&b).
+// Facts for the `taskfn` slice (C08/C10/C11/C12): finite tables read off the job-controller's
+// pure helpers.  Called from main() through taskfnFacts(&b).  A "switch" below is any chain that
+// norm.go normalises to it (tagged / tagless switch, if / else-if chain, early returns).
 //
-//   getJobStateFromCondition   tagless switch, every case `condition.<Member> != nil` with a
+//   getJobStateFromCondition   decision list, every guard `<param>.<Member> != nil` with a
 //                              single `return execution.<JobState const>`; trailing return = default
-//   GetParallelStatusCounters  `switch index.State` / `switch index.Result`: per case the list of
-//                              `status.<Field>++` statements
+//   GetParallelStatusCounters  in the range loop, `switch index.State` then `switch index.Result`:
+//                              per case the list of `status.<Field>++` statements, no default
 //   PodTask.GetState           `switch p.Status.Phase`: per case a single return of a TaskState const
-//   PodTask.GetResult          `switch p.Status.Phase`: per case a single return (or empty body)
+//   PodTask.GetResult          `switch p.Status.Phase`: per case a single return (or empty body),
+//                              final `return ""`
 
 import (
 	"fmt"
@@ -23,17 +25,6 @@ const (
 	statusFile   = "pkg/execution/util/parallel/status.go"
 	podTaskFile  = "pkg/execution/taskexecutor/podtaskexecutor/pod_task.go"
 )
-
-func allSwitches(fd *ast.FuncDecl) []*ast.SwitchStmt {
-	var out []*ast.SwitchStmt
-	ast.Inspect(fd, func(n ast.Node) bool {
-		if s, ok := n.(*ast.SwitchStmt); ok {
-			out = append(out, s)
-		}
-		return true
-	})
-	return out
-}
 
 func leanPairs(ps [][2]string) string {
 	parts := make([]string, len(ps))
@@ -57,10 +48,6 @@ var podPhaseValues = map[string]string{
 }
 
 func taskfnFacts(b *strings.Builder) {
-	jobStates := typedStringConsts(jobTypesFile, "JobState")
-	indexStates := typedStringConsts(jobTypesFile, "IndexState")
-	taskStates := typedStringConsts(jobTypesFile, "TaskState")
-	taskResults := typedStringConsts(jobTypesFile, "TaskResult")
 	val := func(m map[string]string, name, what string) string {
 		v, ok := m[name]
 		if !ok {
@@ -69,154 +56,266 @@ func taskfnFacts(b *strings.Builder) {
 		return v
 	}
 
-	// ---- getJobStateFromCondition
+	// ---- getJobStateFromCondition: decision list `<param>.<Member> != nil` ↦ JobState, default
 	var stateCases [][2]string
 	stateDefault := ""
-	if fd := funcDecl(jcUtilFile, "", "getJobStateFromCondition"); fd != nil && fd.Body != nil {
-		stmts := fd.Body.List
-		if len(stmts) != 2 {
-			failf("getJobStateFromCondition: expected `switch {…}; return …`, found %d statements", len(stmts))
-		} else {
-			sw, ok := stmts[0].(*ast.SwitchStmt)
-			if !ok || sw.Tag != nil || sw.Init != nil {
-				failf("getJobStateFromCondition: first statement is not a tagless switch")
-			} else {
-				for _, st := range sw.Body.List {
-					cc := st.(*ast.CaseClause)
-					if len(cc.List) != 1 || len(cc.Body) != 1 {
-						failf("getJobStateFromCondition: case shape not recognised")
-						continue
-					}
-					be, ok := cc.List[0].(*ast.BinaryExpr)
-					if !ok || be.Op != token.NEQ || exprName(be.Y) != "nil" {
-						failf("getJobStateFromCondition: case is not `condition.X != nil`")
-						continue
-					}
-					sel, ok := be.X.(*ast.SelectorExpr)
-					if !ok || exprName(sel.X) != "condition" {
-						failf("getJobStateFromCondition: case is not on `condition.X`")
-						continue
-					}
-					rs, ok := cc.Body[0].(*ast.ReturnStmt)
-					if !ok || len(rs.Results) != 1 {
-						failf("getJobStateFromCondition: case body is not a single return")
-						continue
-					}
-					stateCases = append(stateCases, [2]string{sel.Sel.Name, val(jobStates, exprName(rs.Results[0]), "getJobStateFromCondition")})
-				}
-			}
-			rs, ok := stmts[1].(*ast.ReturnStmt)
-			if !ok || len(rs.Results) != 1 {
-				failf("getJobStateFromCondition: trailing statement is not a single return")
-			} else {
-				stateDefault = val(jobStates, exprName(rs.Results[0]), "getJobStateFromCondition default")
-			}
-		}
-	}
-
-	// ---- GetParallelStatusCounters
-	var stateIncr, resultIncr []string // rendered lean pairs (value, [fields])
-	if fd := funcDecl(statusFile, "", "GetParallelStatusCounters"); fd != nil {
-		sws := allSwitches(fd)
-		if len(sws) != 2 {
-			failf("GetParallelStatusCounters: expected 2 switches, found %d", len(sws))
-		} else {
-			render := func(sw *ast.SwitchStmt, tag string, consts map[string]string) []string {
-				var out []string
-				if sel, ok := sw.Tag.(*ast.SelectorExpr); !ok || sel.Sel.Name != tag || exprName(sel.X) != "index" {
-					failf("GetParallelStatusCounters: switch is not on index.%s", tag)
-					return nil
-				}
-				for _, st := range sw.Body.List {
-					cc := st.(*ast.CaseClause)
-					if cc.List == nil {
-						failf("GetParallelStatusCounters: unexpected default case in switch on %s", tag)
-						continue
-					}
-					var fields []string
-					for _, bs := range cc.Body {
-						inc, ok := bs.(*ast.IncDecStmt)
-						if !ok || inc.Tok != token.INC {
-							failf("GetParallelStatusCounters: case body statement is not `status.F++`")
-							continue
-						}
-						sel, ok := inc.X.(*ast.SelectorExpr)
-						if !ok || exprName(sel.X) != "status" {
-							failf("GetParallelStatusCounters: increment is not on status.F")
-							continue
-						}
-						fields = append(fields, sel.Sel.Name)
-					}
-					for _, l := range cc.List {
-						out = append(out, fmt.Sprintf("(%s, %s)", leanStr(val(consts, exprName(l), "GetParallelStatusCounters")), leanStrList(fields)))
-					}
-				}
-				return out
-			}
-			stateIncr = render(sws[0], "State", indexStates)
-			resultIncr = render(sws[1], "Result", taskResults)
-		}
-	}
-
-	// ---- PodTask.GetState / GetResult: switch on p.Status.Phase
-	phaseSwitch := func(fn string, consts map[string]string) (cases [][2]string, dflt string, hasDefault bool) {
-		fd := funcDecl(podTaskFile, "PodTask", fn)
-		if fd == nil {
+	section("taskfn-jobstate", func() {
+		jobStates := typedStringConsts(jobTypesFile, "JobState")
+		fd := funcDecl(jcUtilFile, "", "getJobStateFromCondition")
+		if fd == nil || fd.Body == nil {
 			return
 		}
-		var sw *ast.SwitchStmt
-		for _, s := range allSwitches(fd) {
-			if sel, ok := s.Tag.(*ast.SelectorExpr); ok && sel.Sel.Name == "Phase" {
-				sw = s
-			}
-		}
-		if sw == nil {
-			failf("PodTask.%s: no switch on p.Status.Phase", fn)
+		const fn = "getJobStateFromCondition"
+		param := paramVar(fd, 0)
+		ds, term, err := decisionList(fd.Body.List)
+		if err != nil {
+			failf("%s: %v", fn, err)
 			return
 		}
-		for _, st := range sw.Body.List {
-			cc := st.(*ast.CaseClause)
-			res := ""
-			switch len(cc.Body) {
-			case 0:
-			case 1:
-				rs, ok := cc.Body[0].(*ast.ReturnStmt)
-				if !ok || len(rs.Results) != 1 {
-					failf("PodTask.%s: case body is not a single return", fn)
+		if !term {
+			failf("%s: does not end in an unconditional return", fn)
+			return
+		}
+		for i, d := range ds {
+			res, ok := singleResult(d)
+			if !ok {
+				failf("%s: case body is not a single return", fn)
+				continue
+			}
+			if len(d.Path) == 0 {
+				if i != len(ds)-1 {
+					failf("%s: unconditional return before the end", fn)
+				}
+				stateDefault = val(jobStates, res, fn+" default")
+				continue
+			}
+			if len(d.Path) != 1 || d.Path[0].Init != nil {
+				failf("%s: case shape not recognised: %s", fn, pathText(d.Path))
+				continue
+			}
+			for _, g := range d.Path[0].Disj {
+				be, ok := stripParens(g).(*ast.BinaryExpr)
+				if !ok || be.Op != token.NEQ || exprName(be.Y) != "nil" {
+					failf("%s: case is not `%s.X != nil`", fn, param)
 					continue
 				}
-				res = val(consts, exprName(rs.Results[0]), "PodTask."+fn)
-			default:
-				failf("PodTask.%s: case body has %d statements", fn, len(cc.Body))
-				continue
-			}
-			if cc.List == nil {
-				dflt, hasDefault = res, true
-				continue
-			}
-			for _, l := range cc.List {
-				cases = append(cases, [2]string{val(podPhaseValues, exprName(l), "PodTask."+fn), res})
+				sel, ok := be.X.(*ast.SelectorExpr)
+				if !ok || !isIdentNamed(param)(sel.X) {
+					failf("%s: case is not on `%s.X`", fn, param)
+					continue
+				}
+				stateCases = append(stateCases, [2]string{sel.Sel.Name, val(jobStates, res, fn)})
 			}
 		}
-		return
-	}
-	podState, podStateDefault, okd := phaseSwitch("GetState", taskStates)
-	if !okd {
-		failf("PodTask.GetState: default case of the phase switch not found")
-	}
-	podResult, _, _ := phaseSwitch("GetResult", taskResults)
+	})
+
+	// ---- GetParallelStatusCounters:
+	//   var <status> T; for _, <index> := range <param> { <chain on index.State>; <chain on index.Result> }; return <status>
+	// every arm body is a list of `<status>.<Field>++`, no default arm
+	var stateIncr, resultIncr []string // rendered lean pairs (value, [fields])
+	section("taskfn-counters", func() {
+		indexStates := typedStringConsts(jobTypesFile, "IndexState")
+		taskResults := typedStringConsts(jobTypesFile, "TaskResult")
+		fd := funcDecl(statusFile, "", "GetParallelStatusCounters")
+		if fd == nil || fd.Body == nil {
+			return
+		}
+		const fn = "GetParallelStatusCounters"
+		stmts := fd.Body.List
+		if len(stmts) != 3 {
+			failf("%s: expected `var status …; for … range … {…}; return status`, found %d statements", fn, len(stmts))
+			return
+		}
+		statusVar := ""
+		if ds, ok := stmts[0].(*ast.DeclStmt); ok {
+			if gd, ok := ds.Decl.(*ast.GenDecl); ok && gd.Tok == token.VAR && len(gd.Specs) == 1 {
+				if vs, ok := gd.Specs[0].(*ast.ValueSpec); ok && len(vs.Names) == 1 && len(vs.Values) == 0 {
+					statusVar = vs.Names[0].Name
+				}
+			}
+		}
+		rs, okRet := stmts[2].(*ast.ReturnStmt)
+		if statusVar == "" || !okRet || len(rs.Results) != 1 || !isIdentNamed(statusVar)(rs.Results[0]) {
+			failf("%s: the counters are not a zero-valued local that is returned", fn)
+			return
+		}
+		loop, ok := stmts[1].(*ast.RangeStmt)
+		if !ok || loop.Value == nil || !isIdentNamed(paramVar(fd, 0))(loop.X) {
+			failf("%s: second statement is not `for _, index := range <parameter>`", fn)
+			return
+		}
+		if k, isIdent := loop.Key.(*ast.Ident); loop.Key != nil && (!isIdent || k.Name != "_") {
+			failf("%s: the loop uses the slice index", fn)
+			return
+		}
+		indexVar := exprName(loop.Value)
+		if len(loop.Body.List) != 2 {
+			failf("%s: expected 2 switches in the loop body, found %d statements", fn, len(loop.Body.List))
+			return
+		}
+		render := func(st ast.Stmt, tag string, consts map[string]string) []string {
+			ch, err := normChain(st)
+			if err != nil {
+				failf("%s: branch on %s.%s: %v", fn, indexVar, tag, err)
+				return nil
+			}
+			_, arms, err := taggedArms(ch, func(e ast.Expr) bool {
+				sel, ok := e.(*ast.SelectorExpr)
+				return ok && sel.Sel.Name == tag && isIdentNamed(indexVar)(sel.X)
+			})
+			if err != nil {
+				failf("%s: switch is not on %s.%s: %v", fn, indexVar, tag, err)
+				return nil
+			}
+			var out []string
+			for _, a := range arms {
+				if a.Else {
+					failf("%s: unexpected default case in switch on %s", fn, tag)
+					continue
+				}
+				var fields []string
+				for _, bs := range a.Body {
+					inc, ok := bs.(*ast.IncDecStmt)
+					if !ok || inc.Tok != token.INC {
+						failf("%s: case body statement is not `%s.F++`", fn, statusVar)
+						continue
+					}
+					sel, ok := inc.X.(*ast.SelectorExpr)
+					if !ok || !isIdentNamed(statusVar)(sel.X) {
+						failf("%s: increment is not on %s.F", fn, statusVar)
+						continue
+					}
+					fields = append(fields, sel.Sel.Name)
+				}
+				for _, l := range a.Labels {
+					out = append(out, fmt.Sprintf("(%s, %s)", leanStr(val(consts, exprName(l), fn)), leanStrList(fields)))
+				}
+			}
+			return out
+		}
+		stateIncr = render(loop.Body.List[0], "State", indexStates)
+		resultIncr = render(loop.Body.List[1], "Result", taskResults)
+	})
+
+	// ---- PodTask.GetState / GetResult: decision list; leading guards that do not look at the pod
+	// phase are skipped (modelled by hand, checked by the engines), then only comparisons of
+	// <recv>.Status.Phase with PodPhase constants, then the default
+	var podState, podResult [][2]string
+	podStateDefault := ""
+	section("taskfn-podphase", func() {
+		taskStates := typedStringConsts(jobTypesFile, "TaskState")
+		taskResults := typedStringConsts(jobTypesFile, "TaskResult")
+		phaseDecisions := func(fn string, consts map[string]string) (cases [][2]string, dflt string, hasDefault bool) {
+			fd := funcDecl(podTaskFile, "PodTask", fn)
+			if fd == nil || fd.Body == nil {
+				return
+			}
+			what := "PodTask." + fn
+			phaseText := recvVar(fd) + ".Status.Phase"
+			isPhase := func(e ast.Expr) bool { return printNode(e) == phaseText }
+			ds, term, err := decisionList(fd.Body.List)
+			if err != nil {
+				failf("%s: %v", what, err)
+				return
+			}
+			if !term {
+				failf("%s: does not end in an unconditional return", what)
+				return
+			}
+			sawPhase, sawEmpty := false, false
+			for i, d := range ds {
+				if len(d.Path) == 0 {
+					if i != len(ds)-1 {
+						failf("%s: unconditional return before the end", what)
+						continue
+					}
+					res, ok := singleResult(d)
+					if !ok {
+						failf("%s: default is not a single return", what)
+						continue
+					}
+					dflt, hasDefault = res, true
+					continue
+				}
+				onPhase := false
+				if len(d.Path) == 1 {
+					for _, g := range d.Path[0].Disj {
+						if _, _, ok := eqLabel(g, isPhase); ok {
+							onPhase = true
+						}
+					}
+				}
+				if !onPhase {
+					if sawPhase {
+						failf("%s: guard `%s` after the switch on the pod phase", what, pathText(d.Path))
+					}
+					continue
+				}
+				sawPhase = true
+				if d.Path[0].Init != nil {
+					failf("%s: phase guard with an initialiser", what)
+					continue
+				}
+				if sawEmpty {
+					failf("%s: a case follows a case with an empty body", what)
+				}
+				res := ""
+				if d.Ret == nil {
+					sawEmpty = true // control continues after the switch: the default applies
+				} else {
+					r, ok := singleResult(d)
+					if !ok {
+						failf("%s: case body is not a single return", what)
+						continue
+					}
+					res = val(consts, r, what)
+				}
+				for _, g := range d.Path[0].Disj {
+					_, label, ok := eqLabel(g, isPhase)
+					if !ok {
+						failf("%s: guard `%s` is not a comparison of %s with a constant", what, printNode(g), phaseText)
+						continue
+					}
+					cases = append(cases, [2]string{val(podPhaseValues, exprName(label), what), res})
+				}
+			}
+			if !sawPhase {
+				failf("%s: no switch on %s", what, phaseText)
+			}
+			return
+		}
+		var dflt string
+		var okd bool
+		podState, dflt, okd = phaseDecisions("GetState", taskStates)
+		if !okd {
+			failf("PodTask.GetState: default case of the phase switch not found")
+		} else {
+			podStateDefault = val(taskStates, dflt, "PodTask.GetState")
+		}
+		// GetResult: a phase without a result falls out of the switch to the final `return ""`
+		podResult, dflt, okd = phaseDecisions("GetResult", taskResults)
+		if okd && dflt != `""` {
+			failf("PodTask.GetResult: the final return is %s, the model assumes \"\"", dflt)
+		}
+	})
 
 	b.WriteString("\n-- ---- taskfn slice (C08 C10 C11 C12)\n")
-	b.WriteString("/-- `getJobStateFromCondition`: (condition member tested `!= nil`, returned JobState) in case order -/\n")
-	fmt.Fprintf(b, "def jobStateCases : List (String × String) := %s\n", leanPairs(stateCases))
-	fmt.Fprintf(b, "def jobStateDefault : String := %s\n", leanStr(stateDefault))
-	b.WriteString("/-- `GetParallelStatusCounters`: IndexState value ↦ counter fields incremented -/\n")
-	fmt.Fprintf(b, "def counterIncrByState : List (String × List String) := [%s]\n", strings.Join(stateIncr, ", "))
-	b.WriteString("/-- `GetParallelStatusCounters`: index Result value ↦ counter fields incremented -/\n")
-	fmt.Fprintf(b, "def counterIncrByResult : List (String × List String) := [%s]\n", strings.Join(resultIncr, ", "))
-	b.WriteString("/-- `PodTask.GetState`: pod phase ↦ task state (below the Killing guard) -/\n")
-	fmt.Fprintf(b, "def podStateByPhase : List (String × String) := %s\n", leanPairs(podState))
-	fmt.Fprintf(b, "def podStateDefault : String := %s\n", leanStr(podStateDefault))
-	b.WriteString("/-- `PodTask.GetResult`: pod phase ↦ task result (below the OOMKilled guard; no match ↦ \"\") -/\n")
-	fmt.Fprintf(b, "def podResultByPhase : List (String × String) := %s\n", leanPairs(podResult))
+	emit(b, "taskfn-jobstate", func(b *strings.Builder) {
+		b.WriteString("/-- `getJobStateFromCondition`: (condition member tested `!= nil`, returned JobState) in case order -/\n")
+		fmt.Fprintf(b, "def jobStateCases : List (String × String) := %s\n", leanPairs(stateCases))
+		fmt.Fprintf(b, "def jobStateDefault : String := %s\n", leanStr(stateDefault))
+	})
+	emit(b, "taskfn-counters", func(b *strings.Builder) {
+		b.WriteString("/-- `GetParallelStatusCounters`: IndexState value ↦ counter fields incremented -/\n")
+		fmt.Fprintf(b, "def counterIncrByState : List (String × List String) := [%s]\n", strings.Join(stateIncr, ", "))
+		b.WriteString("/-- `GetParallelStatusCounters`: index Result value ↦ counter fields incremented -/\n")
+		fmt.Fprintf(b, "def counterIncrByResult : List (String × List String) := [%s]\n", strings.Join(resultIncr, ", "))
+	})
+	emit(b, "taskfn-podphase", func(b *strings.Builder) {
+		b.WriteString("/-- `PodTask.GetState`: pod phase ↦ task state (below the Killing guard) -/\n")
+		fmt.Fprintf(b, "def podStateByPhase : List (String × String) := %s\n", leanPairs(podState))
+		fmt.Fprintf(b, "def podStateDefault : String := %s\n", leanStr(podStateDefault))
+		b.WriteString("/-- `PodTask.GetResult`: pod phase ↦ task result (below the OOMKilled guard; no match ↦ \"\") -/\n")
+		fmt.Fprintf(b, "def podResultByPhase : List (String × String) := %s\n", leanPairs(podResult))
+	})
 }
